@@ -54,6 +54,7 @@ M = {
  'c01-negint': ('backends/libwayland_debug_output/parse.py', "        int_re = r'(?P<int>-?\\d+)'", "        int_re = r'(?P<int>\\d+)'"),
  'c01-conn': ('backends/libwayland_debug_output/parse.py', "        conn_re = r'( \\<(?P<conn>\\w+)\\>)?'", "        conn_re = r'( \\<(?P<conn>\\d)\\>)?'"),
  'c17-literal': ('core/wl/arg.py', "            return color(fd_color, 'fd ' + str(self.value))", "            return '\\x1b[35mfd ' + str(self.value) + '\\x1b[0m'"),
+  # (equivalent since the fix of process_command, which strips colour from the whole line first)
  'c17-strip': ('frontends/tui/controller.py', "        second = '' if len(args) < 2 else no_color(args[1]).strip()", "        second = '' if len(args) < 2 else args[1].strip()"),
  'c17-space': ('core/util.py', "        if color is not None:\n            result += '\\x1b[' + color + 'm'", "        if color is not None:\n            result += ' \\x1b[' + color + 'm'"),
  'c17-matcherstrip': ('core/matcher.py', "    text = no_color(text).strip()\n    if text == '':", "    text = text.strip()\n    if text == '':"),
